@@ -171,6 +171,15 @@ Theorem C15_Zerr_never_below_one :
 Proof. exact zerr_code_never_met. Qed.
 Print Assumptions C15_Zerr_never_below_one.
 
+(* the standard sampler's condition ln(Z + Lmax X_it) - ln Z is positive in every state and, for a fixed
+   evidence and largest likelihood, strictly decreasing in the iteration count *)
+Theorem C15_stdcond_positive_decreasing :
+  forall (z l : R) (it it' nlive : Z),
+    (0 < stdcond_R z l it nlive)%R
+    /\ ((0 < nlive)%Z -> (it < it')%Z -> (stdcond_R z l it' nlive < stdcond_R z l it nlive)%R).
+Proof. intros z l it it' nlive. split; [apply stdcond_pos|apply stdcond_decreasing]. Qed.
+Print Assumptions C15_stdcond_positive_decreasing.
+
 (* ---- non-vacuity --------------------------------------------------------------------------------- *)
 Example C15_hand_skeletons_ok : P_std std_sk /\ P_ins ins_sk.
 Proof. split; [exact std_sk_ok|exact ins_sk_ok]. Qed.
